@@ -422,7 +422,8 @@ def c_world():
     n0.outputs[0].name = "d"
     ifn = ir.Node("", "If", [cond], [ir.AttrGraph("then_branch", body)], name="if")
     ifn.outputs[0].name = "r"
-    g = ir.Graph([E, cond], [n0.outputs[0], ifn.outputs[0]], nodes=[n0, ifn], initializers=[A, B], name="main", opset_imports={"": 20})
+    # B is an initializer that is also listed as a graph input (an overridable default)
+    g = ir.Graph([E, cond, B], [n0.outputs[0], ifn.outputs[0]], nodes=[n0, ifn], initializers=[A, B], name="main", opset_imports={"": 20})
     return ir.Model(g, ir_version=10), {"A": A, "B": B, "C": C, "C2": C2, "D": n0.outputs[0], "E": E}
 
 
